@@ -438,7 +438,10 @@ func apply(d Doc, c Cmd, env Env) (results []Doc, reject bool, mayReject bool) {
 				continue
 			}
 			sum := normSummary(c.Summary)
+			var carryBase []Text
+			var carryTags []string
 			if !c.NoTags {
+				carryBase = append([]Text(nil), sum...)
 				tags, _ := TagsOfLines(Strs(r.Entries[oi].Summary))
 				var ts []string
 				for _, tg := range tags {
@@ -446,9 +449,10 @@ func apply(d Doc, c Cmd, env Env) (results []Doc, reject bool, mayReject bool) {
 				}
 				if len(ts) > 0 {
 					sum = appendSummary(sum, []Text{Text(strings.Join(ts, " "))})
+					carryTags = ts
 				}
 			}
-			nd.Records[ri].Entries = append(nd.Records[ri].Entries, Entry{Kind: KDuration, Dur: Duration{Mins: -elapsed, ZeroSign: -1}, Summary: sum, LooseTrail: true})
+			nd.Records[ri].Entries = append(nd.Records[ri].Entries, Entry{Kind: KDuration, Dur: Duration{Mins: -elapsed, ZeroSign: -1}, Summary: sum, LooseTrail: true, CarryBase: carryBase, CarryTags: carryTags})
 			out = append(out, nd)
 		}
 		return out, len(out) == 0, failAny || len(out) == 0
@@ -493,4 +497,58 @@ func addEntry(d Doc, day int, env Env, mk func(r *Record) ([]Entry, bool)) ([]Do
 		out = append(out, nd)
 	}
 	return out, len(out) == 0, failAny
+}
+
+// PauseSummaryAcceptable decides whether got is an acceptable summary for a pause entry whose
+// user-given summary is base and which has to carry over the tags carry (normalised tag strings):
+// got starts with base (line by line, the last line as a prefix), what follows on that last line
+// consists of nothing but tags from carry separated by blanks, and every tag of carry is matched
+// (in the sense of klog's tag matching, C14) by a tag of got.
+func PauseSummaryAcceptable(got []string, base []Text, carry []string) bool {
+	trim := func(s string) string { return strings.TrimRight(s, " \t") }
+	b := Strs(base)
+	if len(b) == 0 {
+		b = []string{""}
+	}
+	if len(got) != len(b) {
+		return false
+	}
+	last := len(b) - 1
+	for i := 0; i < last; i++ {
+		if trim(got[i]) != trim(b[i]) {
+			return false
+		}
+	}
+	prefix := trim(b[last])
+	if !strings.HasPrefix(got[last], prefix) {
+		return false
+	}
+	rest := got[last][len(prefix):]
+	if prefix != "" && strings.Trim(rest, " ") != "" && !strings.HasPrefix(rest, " ") {
+		return false
+	}
+	rest = strings.Trim(rest, " ")
+	used := make([]bool, len(carry))
+	for rest != "" {
+		progress := false
+		for i, t := range carry {
+			if used[i] || !strings.HasPrefix(rest, t) || (len(rest) > len(t) && rest[len(t)] != ' ') {
+				continue
+			}
+			used[i], progress = true, true
+			rest = strings.TrimLeft(rest[len(t):], " ")
+			break
+		}
+		if !progress {
+			return false
+		}
+	}
+	all, _ := TagsOfLines(got)
+	for _, t := range carry {
+		ts, _ := ScanTags(t)
+		if len(ts) != 1 || !TagSetContains(all, ts[0]) { // klog's tag matching: `#tag` is matched by `#tag=v`
+			return false
+		}
+	}
+	return true
 }
